@@ -3,7 +3,7 @@
 (* and the trace specification).                                            *)
 EXTENDS Naturals, Sequences
 
-Op(op, f, o, a) == [op |-> op, f |-> f, o |-> o, a |-> a]
+Op(op, f, o, a) == [op |-> op, f |-> f, o |-> o, a |-> a, when |-> 0]
 CallOp(f, o, a) == Op("call", f, o, a)
 
 \* a callable
